@@ -18,7 +18,8 @@ pub const K_RESET_KEY: u8 = 4; // arg = key length, seed = key seed
 pub const K_FINRESET: u8 = 5;
 pub const K_FINRESET_KEY: u8 = 6;
 pub const K_FINALIZE: u8 = 7; // retires the handle; off&1 selects finalize_at where both exist
-const KINDS: &[&str] = &["update", "update_mut", "fork", "reset", "reset_with_key", "finalize_reset", "finalize_reset_with_key", "finalize"];
+pub const K_INVALID: u8 = 8; // BLAKE2 only: a call the API refuses (wrong output buffer / over-long key), made on the live object; arg selects which
+const KINDS: &[&str] = &["update", "update_mut", "fork", "reset", "reset_with_key", "finalize_reset", "finalize_reset_with_key", "finalize", "refused_call"];
 
 pub trait HashObj {
     fn update_val(&mut self, d: &[u8]);
@@ -31,6 +32,12 @@ pub trait HashObj {
         unreachable!()
     }
     fn finalize_reset_with_key(&mut self, _k: &[u8], _alt: bool) -> Vec<u8> {
+        unreachable!()
+    }
+    /// a call the API defines as invalid, made on the live object (BLAKE2 only): 0 = finalize_reset_at into a buffer one byte
+    /// too long, 1 = one byte too short, 2 = finalize_reset_with_key_at with a valid key and a wrong buffer, 3 = the same with a
+    /// key one byte too long and the right buffer, 4 = reset_with_key with a key one byte too long. Must not return.
+    fn invalid_call(&mut self, _which: u64, _max_key: usize) {
         unreachable!()
     }
 }
@@ -85,6 +92,16 @@ macro_rules! blake_const_obj {
         struct $wrap($m::Context<$bits>);
         impl HashObj for $wrap {
             blake_common!($m::Context<$bits>, $wrap, ($bits + 7) / 8);
+            fn invalid_call(&mut self, which: u64, max_key: usize) {
+                let n = ($bits + 7) / 8;
+                match which % 5 {
+                    0 => self.0.finalize_reset_at(&mut vec![0u8; n + 1]),
+                    1 => self.0.finalize_reset_at(&mut vec![0u8; n - 1]),
+                    2 => self.0.finalize_reset_with_key_at(&[7u8; 3], &mut vec![0u8; n + 1]),
+                    3 => self.0.finalize_reset_with_key_at(&vec![7u8; max_key + 1], &mut vec![0u8; n]),
+                    _ => self.0.reset_with_key(&vec![7u8; max_key + 1]),
+                }
+            }
             fn finalize_reset(&mut self, alt: bool) -> Vec<u8> {
                 if alt {
                     let mut out = vec![0x5au8; ($bits + 7) / 8];
@@ -118,6 +135,16 @@ macro_rules! blake_const_obj {
         struct $wrap($m::Context<$bits>);
         impl HashObj for $wrap {
             blake_common!($m::Context<$bits>, $wrap, ($bits + 7) / 8);
+            fn invalid_call(&mut self, which: u64, max_key: usize) {
+                let n = ($bits + 7) / 8;
+                match which % 5 {
+                    0 => self.0.finalize_reset_at(&mut vec![0u8; n + 1]),
+                    1 => self.0.finalize_reset_at(&mut vec![0u8; n - 1]),
+                    2 => self.0.finalize_reset_with_key_at(&[7u8; 3], &mut vec![0u8; n + 1]),
+                    3 => self.0.finalize_reset_with_key_at(&vec![7u8; max_key + 1], &mut vec![0u8; n]),
+                    _ => self.0.reset_with_key(&vec![7u8; max_key + 1]),
+                }
+            }
             fn finalize_reset(&mut self, _alt: bool) -> Vec<u8> {
                 let mut out = vec![0x5au8; ($bits + 7) / 8];
                 self.0.finalize_reset_at(&mut out);
@@ -205,6 +232,16 @@ macro_rules! blake_dyn_obj {
                 let mut out = vec![0x5au8; self.1];
                 self.0.finalize_reset_with_key_at(k, &mut out);
                 out
+            }
+            fn invalid_call(&mut self, which: u64, max_key: usize) {
+                let n = self.1;
+                match which % 5 {
+                    0 => self.0.finalize_reset_at(&mut vec![0u8; n + 1]),
+                    1 => self.0.finalize_reset_at(&mut vec![0u8; n - 1]),
+                    2 => self.0.finalize_reset_with_key_at(&[7u8; 3], &mut vec![0u8; n + 1]),
+                    3 => self.0.finalize_reset_with_key_at(&vec![7u8; max_key + 1], &mut vec![0u8; n]),
+                    _ => self.0.reset_with_key(&vec![7u8; max_key + 1]),
+                }
             }
         }
     };
@@ -372,6 +409,11 @@ struct Handle {
     obj: Box<dyn HashObj>,
     key: Vec<u8>,
     log: Vec<u8>,
+    /// a call on this object was refused loudly earlier (the model is unchanged by it): later calls may fail loudly too -
+    /// the handle is then retired - but a call that returns must return the right digest
+    refused: bool,
+    /// the refused call was finalize_reset_with_key_at with an over-long key (named finding: finalised before refusing)
+    late_key: bool,
 }
 
 /// Sizes at which buffered, strided or multi-buffer implementations switch paths (4 KiB, 16 KiB, 64 KiB, 128 KiB,
@@ -450,7 +492,11 @@ impl HashCtx {
         // swarm configuration
         let max_handles = rng.range(1, 4) as usize;
         let max_steps = if tier == Tier::Thorough && rng.chance(1, 10) { rng.range(20, 80) } else { rng.range(3, 40) } as usize;
-        let mut w = [10u32, 10, 0, 0, 0, 0, 0, 0];
+        let mut w = [10u32, 10, 0, 0, 0, 0, 0, 0, 0];
+        // misuse-injecting configuration (BLAKE2 only, a quarter of the runs): a refused call now and then, history goes on
+        if var.max_key > 0 && rng.chance(1, 4) {
+            w[K_INVALID as usize] = 1;
+        }
         if rng.chance(1, 4) {
             w[K_UPDATE as usize] = 0;
         } else if rng.chance(1, 4) {
@@ -522,6 +568,14 @@ impl HashCtx {
                 K_FORK => {
                     t.ops.push(Op::new(h as u8, K_FORK));
                     fills.push(Some(fill));
+                }
+                K_INVALID => {
+                    t.ops.push(Op::new(h as u8, K_INVALID).arg(rng.below(5)));
+                    // often followed at once by the same kind of call done properly
+                    if rng.chance(1, 2) {
+                        t.ops.push(Op::new(h as u8, K_FINRESET).off(1));
+                        fills[h] = Some(0);
+                    }
                 }
                 K_RESET | K_FINRESET => {
                     t.ops.push(Op::new(h as u8, k).off(rng.below(2) as u8));
@@ -662,7 +716,7 @@ impl Scenario for HashCtx {
         let key0 = crate::rng::data(t.p("key_seed"), klen0);
         let name = var.name;
         let first = guarded(|| make_via(name, outlen, &key0, t.p("key_seed") & 2 != 0)).map_err(|m| Violation::new("unexpected-panic", 0, "object constructed", m, "new / new_keyed"))?;
-        let mut hs: Vec<Option<Handle>> = vec![Some(Handle { obj: first, key: key0, log: Vec::new() })];
+        let mut hs: Vec<Option<Handle>> = vec![Some(Handle { obj: first, key: key0, log: Vec::new(), refused: false, late_key: false })];
 
         for (i, op) in t.ops.iter().enumerate() {
             let h = op.h as usize;
@@ -691,6 +745,11 @@ impl Scenario for HashCtx {
                     }
                     let r = if op.k == K_UPDATE { guarded(|| hd.obj.update_val(a.get())) } else { guarded(|| hd.obj.update_mut(a.get())) };
                     if let Err(m) = r {
+                        if hd.refused {
+                            obs.hit("observed.loud_failure_after_an_earlier_refusal");
+                            hs[h] = None;
+                            continue;
+                        }
                         return Err(Violation::new("unexpected-panic", i, "update accepted", m, format!("{} update len {}", name, len)));
                     }
                     hd.log.extend_from_slice(a.get());
@@ -703,7 +762,7 @@ impl Scenario for HashCtx {
                     obs.hit("fault.fork_midstream");
                     let hd = hs[h].as_ref().unwrap();
                     let o2 = guarded(|| hd.obj.fork()).map_err(|m| Violation::new("unexpected-panic", i, "clone", m, name))?;
-                    let nh = Handle { obj: o2, key: hd.key.clone(), log: hd.log.clone() };
+                    let nh = Handle { obj: o2, key: hd.key.clone(), log: hd.log.clone(), refused: hd.refused, late_key: hd.late_key };
                     hs.push(Some(nh));
                 }
                 K_RESET => {
@@ -712,7 +771,14 @@ impl Scenario for HashCtx {
                     if !hd.log.is_empty() && hd.log.len() % b != 0 {
                         obs.hit("probe.reset_with_bytes_buffered");
                     }
-                    guarded(|| hd.obj.reset()).map_err(|m| Violation::new("unexpected-panic", i, "reset", m, name))?;
+                    if let Err(m) = guarded(|| hd.obj.reset()) {
+                        if hd.refused {
+                            obs.hit("observed.loud_failure_after_an_earlier_refusal");
+                            hs[h] = None;
+                            continue;
+                        }
+                        return Err(Violation::new("unexpected-panic", i, "reset", m, name));
+                    }
                     hd.log.clear();
                     hd.key.clear();
                 }
@@ -724,7 +790,14 @@ impl Scenario for HashCtx {
                     let hd = hs[h].as_mut().unwrap();
                     let kl = (op.arg as usize).min(var.max_key);
                     let key = crate::rng::data(op.seed, kl);
-                    guarded(|| hd.obj.reset_with_key(&key)).map_err(|m| Violation::new("unexpected-panic", i, "reset_with_key", m, name))?;
+                    if let Err(m) = guarded(|| hd.obj.reset_with_key(&key)) {
+                        if hd.refused {
+                            obs.hit("observed.loud_failure_after_an_earlier_refusal");
+                            hs[h] = None;
+                            continue;
+                        }
+                        return Err(Violation::new("unexpected-panic", i, "reset_with_key", m, name));
+                    }
                     hd.log.clear();
                     hd.key = key;
                 }
@@ -741,14 +814,43 @@ impl Scenario for HashCtx {
                     let alt = op.off & 1 == 1;
                     let newkey = if op.k == K_FINRESET_KEY { crate::rng::data(op.seed, (op.arg as usize).min(var.max_key)) } else { Vec::new() };
                     let got = if op.k == K_FINRESET { guarded(|| hd.obj.finalize_reset(alt)) } else { guarded(|| hd.obj.finalize_reset_with_key(&newkey, alt)) };
-                    let got = got.map_err(|m| Violation::new("unexpected-panic", i, "finalize_reset", m, name))?;
+                    let got = match got {
+                        Ok(g) => g,
+                        Err(m) => {
+                            if hd.refused {
+                                obs.hit("observed.loud_failure_after_an_earlier_refusal");
+                                hs[h] = None;
+                                continue;
+                            }
+                            return Err(Violation::new("unexpected-panic", i, "finalize_reset", m, name));
+                        }
+                    };
                     obs.out(&got);
                     let want = oneshot(name, outlen, &hd.key, &hd.log);
                     if got != want {
-                        return Err(Violation::bytes("digest-mismatch", i, &want, &got, format!("{} finalize_reset of {} bytes (key {} bytes) vs one-call digest", name, hd.log.len(), hd.key.len())));
+                        let after = if hd.late_key { " [after an earlier call on this object was refused loudly] symptom=blake2-finalised-before-refusing-overlong-key" } else if hd.refused { " [after an earlier call on this object was refused loudly]" } else { "" };
+                        return Err(Violation::bytes("digest-mismatch", i, &want, &got, format!("{} finalize_reset of {} bytes (key {} bytes) vs one-call digest{}", name, hd.log.len(), hd.key.len(), after)));
                     }
                     hd.log.clear();
                     hd.key = newkey;
+                }
+                K_INVALID => {
+                    if var.max_key == 0 {
+                        continue;
+                    }
+                    let hd = hs[h].as_mut().unwrap();
+                    obs.hit("fault.call_refused_then_history_continued");
+                    match guarded(|| hd.obj.invalid_call(op.arg, var.max_key)) {
+                        Err(_) => {
+                            hd.refused = true;
+                            if op.arg % 5 == 3 {
+                                hd.late_key = true;
+                            }
+                        }
+                        Ok(()) => {
+                            return Err(Violation::new("missing-refusal", i, "loud failure (panic)", "returned normally", format!("{}: invalid call class {} (wrong output buffer size / over-long key) was accepted", name, op.arg % 5)));
+                        }
+                    }
                 }
                 K_FINALIZE => {
                     let hd = hs[h].take().unwrap();
@@ -757,12 +859,20 @@ impl Scenario for HashCtx {
                         obs.hit("probe.blake2_buffer_full_at_finalisation");
                     }
                     let alt = op.off & 1 == 1;
-                    let Handle { obj, key, log } = hd;
-                    let got = guarded(move || obj.finalize(alt)).map_err(|m| Violation::new("unexpected-panic", i, "finalize", m, name))?;
+                    let Handle { obj, key, log, refused, late_key } = hd;
+                    let got = match guarded(move || obj.finalize(alt)) {
+                        Ok(g) => g,
+                        Err(_) if refused => {
+                            obs.hit("observed.loud_failure_after_an_earlier_refusal");
+                            continue;
+                        }
+                        Err(m) => return Err(Violation::new("unexpected-panic", i, "finalize", m, name)),
+                    };
                     obs.out(&got);
                     let want = oneshot(name, outlen, &key, &log);
                     if got != want {
-                        return Err(Violation::bytes("digest-mismatch", i, &want, &got, format!("{} finalize of {} bytes (key {} bytes) vs one-call digest", name, log.len(), key.len())));
+                        let after = if late_key { " [after an earlier call on this object was refused loudly] symptom=blake2-finalised-before-refusing-overlong-key" } else if refused { " [after an earlier call on this object was refused loudly]" } else { "" };
+                        return Err(Violation::bytes("digest-mismatch", i, &want, &got, format!("{} finalize of {} bytes (key {} bytes) vs one-call digest{}", name, log.len(), key.len(), after)));
                     }
                 }
                 _ => {}
@@ -772,15 +882,27 @@ impl Scenario for HashCtx {
         let n = t.ops.len();
         for (hi, slot) in hs.into_iter().enumerate() {
             if let Some(hd) = slot {
-                let Handle { obj, key, log } = hd;
-                let got = guarded(move || obj.finalize(true)).map_err(|m| Violation::new("unexpected-panic", n, "finalize", m, name))?;
+                let Handle { obj, key, log, refused, late_key } = hd;
+                let got = match guarded(move || obj.finalize(true)) {
+                    Ok(g) => g,
+                    Err(_) if refused => continue,
+                    Err(m) => return Err(Violation::new("unexpected-panic", n, "finalize", m, name)),
+                };
                 obs.out(&got);
                 let want = oneshot(name, outlen, &key, &log);
                 if got != want {
-                    return Err(Violation::bytes("digest-mismatch", n, &want, &got, format!("{} end-of-run finalize of handle {} ({} bytes, key {} bytes) vs one-call digest", name, hi, log.len(), key.len())));
+                    let after = if late_key { " [after an earlier call on this object was refused loudly] symptom=blake2-finalised-before-refusing-overlong-key" } else if refused { " [after an earlier call on this object was refused loudly]" } else { "" };
+                    return Err(Violation::bytes("digest-mismatch", n, &want, &got, format!("{} end-of-run finalize of handle {} ({} bytes, key {} bytes) vs one-call digest{}", name, hi, log.len(), key.len(), after)));
                 }
             }
         }
         Ok(())
+    }
+
+    fn classify(&self, _t: &Trace, v: &Violation) -> Option<&'static str> {
+        if v.detail.ends_with("symptom=blake2-finalised-before-refusing-overlong-key") {
+            return Some("blake2.finalize_reset_with_key.finalises_before_refusing_overlong_key");
+        }
+        None
     }
 }
